@@ -464,3 +464,57 @@ fn c06_s1a_value_size_per_tier() {
 	assert!(sizes.len() == SIZE_TIERS - 1, "C06.S1 255 fixed tiers + the multipart tier");
 }
 
+
+// =====================================================================================
+// C01.G1: value-table ids map injectively into the log overlay array (a collision would let two tables share overlay entries)
+// =====================================================================================
+#[kani::proof]
+fn c01_g1_value_table_log_index() {
+	let (c1, t1, c2, t2): (u8, u8, u8, u8) = (kani::any(), kani::any(), kani::any(), kani::any());
+	let a = TableId::new(c1, t1);
+	let b = TableId::new(c2, t2);
+	assert!(a.col() == c1 && a.size_tier() == t1, "C01.G1 table id packs column and tier");
+	assert!(TableId::from_log_index(a.log_index()) == a, "C01.G1 value table log index round trip");
+	if a.log_index() == b.log_index() { assert!(a == b, "C01.G1 value table log index injective"); }
+	let n: usize = kani::any();
+	kani::assume(n >= 1 && n <= 256 && (c1 as usize) < n);
+	assert!(a.log_index() < TableId::max_log_tables(n), "C01.G1 log index within the overlay array of an n-column database");
+	assert!(TableId::from_u16(a.as_u16()) == a, "C01.G1 u16 round trip");
+}
+
+// =====================================================================================
+// C14.T0: the in-memory free stack built at open equals the on-disk free list (top of stack = list head)
+// =====================================================================================
+crate::verif_tbl! {
+#[kani::proof]
+#[kani::unwind(200)]
+fn c14_t0_init_free_stack_matches_disk_list() {
+	let disk: [u8; TE * TN] = kani::any();
+	let filled: u64 = kani::any();
+	let last_removed: u64 = kani::any();
+	let (list, n) = assume_free_list(&disk, filled, last_removed);
+	kani::assume(n <= 3);
+	let mut t = mk(TableId::new(0, 0), TE as u16, false, false, 8);
+	t.needs_free_entries = true;
+	preload(&t, &disk);
+	t.filled.store(filled, Ordering::Relaxed);
+	t.last_removed.store(last_removed, Ordering::Relaxed);
+	t.init_table_data().unwrap();
+	let stack = free_stack_of(&t);
+	assert!(stack.len() == n, "C14.T0 free stack has one entry per free slot");
+	let j: usize = kani::any();
+	kani::assume(j < n);
+	assert!(stack[n - 1 - j] == list[j], "C14.T0 free stack mirrors the on-disk list (head on top)");
+	// and claiming pops in list order
+	if n >= 1 {
+		let got = t.claim_entries(1).unwrap();
+		assert!(got.len() == 1 && got[0] == list[0], "C14.T0 claim hands out the list head");
+		assert!(t.last_removed.load(Ordering::Relaxed) == if n >= 2 { list[1] } else { 0 }, "C14.T0 claim advances the head to its successor");
+		std::mem::forget(got);
+	}
+	kani::cover!(n == 3);
+	kani::cover!(n == 0);
+	std::mem::forget(stack);
+	std::mem::forget(t);
+}
+}
